@@ -254,21 +254,23 @@ def oracle(case, info=None):
 
 
 def mixed_rotate_chain(s):
-    """does s contain (X rot c1) rot c2 with counts of different widths (the open rotate-merge finding)?"""
+    """does s contain (X rot c1) rot c2 with counts of different widths (the open rotate-merge finding)?  The chain is read both
+    as written and as the rule sees it: (A <<< c1)[0:16] or B ^ B ^ (A <<< c1) are (A <<< c1) after simplification"""
     for p in paths(s):
-        n = get_at(s, p)
-        ws = set()
-        while n[0] == "op" and n[1] in ("<<<", ">>>") and len(n[2]) == 2:
-            ws.add(swidth(n[2][1]))
-            n = n[2][0]
-            # the rule sees its operand after simplification: (A <<< c1)[0:16] or B ^ B ^ (A <<< c1) are (A <<< c1)
-            try:
-                from miasmx.expression.expression_helper import expr_simp
-                n = to_script(expr_simp(build(n)))
-            except Exception:
-                pass
-        if len(ws) > 1:
-            return True
+        for simplify in (False, True):
+            n = get_at(s, p)
+            ws = set()
+            while n[0] == "op" and n[1] in ("<<<", ">>>") and len(n[2]) == 2:
+                ws.add(swidth(n[2][1]))
+                n = n[2][0]
+                if simplify:
+                    try:
+                        from miasmx.expression.expression_helper import expr_simp
+                        n = to_script(expr_simp(build(n)))
+                    except Exception:
+                        pass
+            if len(ws) > 1:
+                return True
     return False
 
 
